@@ -35,12 +35,17 @@ func ReplayMain(harnesses map[string]func()) error {
 		return err
 	}
 	var results []NativeResult
+	ran := map[string]int{} // witnesses of a harness that ran natively (not skipped)
 	for _, f := range strings.Split(strings.TrimSpace(string(b)), "\n") {
 		if f == "" {
 			continue
 		}
 		if err := Load(f); err != nil {
 			return err
+		}
+		if cur.Kind == "witness" && cur.Want > 0 && ran[Harness()] >= cur.Want {
+			// witness candidates beyond the quota (the pool is larger because some are skipped natively)
+			continue
 		}
 		r := NativeResult{File: f, Harness: Harness()}
 		h, ok := harnesses[Harness()]
@@ -56,6 +61,9 @@ func ReplayMain(harnesses map[string]func()) error {
 		r.Panicked = p
 		if p {
 			r.PanicVal = fmt.Sprint(v)
+		}
+		if cur.Kind == "witness" && !r.Skipped {
+			ran[Harness()]++
 		}
 		results = append(results, r)
 	}
